@@ -120,7 +120,7 @@ def execute(case, stats, log):
     m.pristine_phase(case["targets"])
     for v in case["targets"]:
         p = m.pristine[v]
-        log.append(["pristine", v, p.get("name"), fp(p.get("value")) if p["error"] is None else p["error"][:60]])
+        log.append(["pristine", v, m.nm(p.get("name")), fp(p.get("value")) if p["error"] is None else p["error"][:60]])
     if all(m.pristine[v]["error"] for v in case["targets"]):
         raise Invalid("no target computes in the pristine phase")
     run_history(m, case, stats, log)
@@ -187,7 +187,7 @@ def run_history(m, case, stats, log, check=None):
             log.append([i, "compute", var, fp(val)])
         elif ev["ev"] == "build":
             x = out["x"]
-            log.append([i, "build", var, x.name, chunks_json(x.chunks)])
+            log.append([i, "build", var, m.nm(x.name), chunks_json(x.chunks)])
         elif ev["ev"] == "inspect":
             log.append([i, "inspect", var, out["seen"]])
         else:
